@@ -56,11 +56,12 @@ class Steps:
     def __init__(self):
         self.reset()
 
-    def reset(self, cap=5_000_000, tick=0.0, deadline=None):
+    def reset(self, cap=5_000_000, tick=0.0, deadline=None, sched=None):
         self.n = 0                     # all hooked steps
         self.by = {"main": 0, "cb": 0, "re": 0, "la": 0, "lb": 0}
         self.cap = cap
         self.tick = tick               # virtual seconds per step (0 = clock does not move)
+        self.sched = list(sched or [])  # cost profile: [(step count, new tick), ...] - the cost of a step changes during the run
         self.deadline = deadline       # virtual time after which steps count as late
         self.late = {"main": 0, "cb": 0, "re": 0, "la": 0, "lb": 0}
         self.throws = 0
@@ -79,6 +80,8 @@ def _vm_hook(vm, kind, op, arg, frame):
     s = STEPS
     s.n += 1
     s.by[kind] += 1
+    if s.sched and s.n >= s.sched[0][0]:
+        s.tick = s.sched.pop(0)[1]
     if s.tick:
         VCLOCK.now += s.tick
         if s.deadline is not None and VCLOCK.now > s.deadline:
@@ -170,10 +173,10 @@ class Api:
             ctx._to_python = tap
         return ctx
 
-    def run(self, fn, wall=20.0, cap=5_000_000, tick=0.0, deadline=None, keep_clock=False):
+    def run(self, fn, wall=20.0, cap=5_000_000, tick=0.0, deadline=None, keep_clock=False, sched=None):
         wall = wall * WALL_SCALE
         """Run fn() under the step cap and a wall-clock watchdog; classify the outcome."""
-        STEPS.reset(cap=cap, tick=tick, deadline=deadline)
+        STEPS.reset(cap=cap, tick=tick, deadline=deadline, sched=sched)
         if tick:
             VCLOCK.on = True
             if not keep_clock:          # keep_clock: a later evaluation of a history, virtual time goes on
